@@ -1,6 +1,17 @@
-"""writes /tmp/seed_<id>/seed/PROMPT.txt for the given property ids (the prompt contains only the property text)"""
+"""usage: make_prompts.py [--theme <file>] [--suffix S] <pid>...
+writes /tmp/seed_<pid><S>/seed/PROMPT.txt for the given property ids (the prompt contains only the property text and,
+optionally, a paragraph naming the kind of change wanted in this round)"""
 import json, sys
 props = {json.loads(l)['id']: json.loads(l) for l in open('/verif/properties.jsonl')}
+args = sys.argv[1:]
+theme = ''
+suffix = ''
+while args and args[0].startswith('--'):
+    if args[0] == '--theme':
+        theme = open(args[1]).read().strip()
+    elif args[0] == '--suffix':
+        suffix = args[1]
+    args = args[2:]
 tmpl = '''You are working ONLY inside a scratch git worktree of the pure-Python library barrust/pyprobables at {path} . Do not read, write or execute anything under /repo or /verif (they are off limits); work only under {path} .
 
 Tools: Python is /venv/bin/python . Run the library's test-suite with:  cd {path} && /venv/bin/python -m pytest -q -p no:cacheprovider   (312 tests, all pass on the clean tree). To make scripts import this worktree's copy of the library run them as:  cd {path} && PYTHONPATH={path} /venv/bin/python <script>
@@ -11,13 +22,14 @@ STATEMENT: {statement}
 QUANTIFIED OVER: {quant}
 
 YOUR TASK: act as a careless-but-plausible maintainer and produce a realistic change to the library's source (files under {path}/probables/) that BREAKS this property, while (a) the library still imports and (b) the complete existing test-suite still passes unchanged (do not edit tests). The change must need something specific in order to manifest — a particular multi-step sequence of operations, an unusual input or geometry, a particular hash collision, a particular resolution of an internal random choice, a fault/crash at a particular point, or two cooperating code sites that each look fine alone — NOT something ordinary use would expose at once. Prefer changes that look like genuine refactorings, optimisations or off-by-one slips.
-
+{theme}
 Produce TWO different, independent changes if you can (each against the clean tree; different code sites / different failure mechanisms; if the property covers several structures, pick different structures). For change number N (N = 1, 2) deliver these files under {path}/seed/ :
   - patchN.diff : output of `git diff -- probables/` for that change alone (must apply to the clean tree with `git apply`)
   - demoN.py    : a small self-contained demonstration program which exits with a non-zero status (e.g. an AssertionError explaining what went wrong) when run with the change applied, and exits 0 on the clean tree. Run as: cd {path} && PYTHONPATH={path} /venv/bin/python seed/demoN.py
   - notesN.md   : 5-10 lines: what the change is, which part of the property it breaks, exactly what is needed for it to manifest.
 Before finishing, verify for each change: with the patch applied the full test-suite passes and demoN.py fails; with the patch reverted (`git checkout -- probables/`) demoN.py passes. Leave the worktree clean of source changes at the end (`git checkout -- probables/`), keeping only the seed/ directory. Reply with a short summary of the two changes.'''
-for pid in sys.argv[1:]:
+for pid in args:
     p = props[pid]
-    open(f'/tmp/seed_{pid}/seed/PROMPT.txt', 'w').write(tmpl.format(path=f'/tmp/seed_{pid}', pid=pid, title=p['title'], statement=p['statement'], quant=p['quantifier']['text']))
+    path = f'/tmp/seed_{pid}{suffix}'
+    open(f'{path}/seed/PROMPT.txt', 'w').write(tmpl.format(path=path, pid=pid, title=p['title'], statement=p['statement'], quant=p['quantifier']['text'], theme=('\nTHIS ROUND: ' + theme + '\n') if theme else ''))
 print("ok")
